@@ -6,12 +6,13 @@ package climate
 // real code. A grid is not a proof; the result is reported as bounded, never as proved.
 //
 // owvc-bounded: property=C20 pkg=models/climate
-//   svp-strictly-increasing   dry bulb -40..55 C in steps of 0.001 C (95001 points, adjacent pairs)
+//   svp-strictly-increasing   dry bulb -40..55 C in steps of 0.001 C (95001 points, adjacent pairs; 0.00005 C in the thorough tier)
 //   outputs-finite-and-ordered dry bulb -40..55 step 0.5, humidity 1..100 % step 1, elevation 0..10000 m step 2500
 
 import (
 	"fmt"
 	"math"
+	"os"
 	"testing"
 
 	"github.com/flowmatters/openwater-core/data"
@@ -22,8 +23,12 @@ func TestOwvcReplay(t *testing.T) {
 	n := 0
 	prev := calcVaporPressure(-40)
 	bad := ""
-	for k := 1; k <= 95000; k++ {
-		temp := -40 + float64(k)*0.001
+	steps, h := 95000, 0.001
+	if os.Getenv("OWVC_THOROUGH") != "" { // thorough tier: twenty times finer
+		steps, h = 1900000, 0.00005
+	}
+	for k := 1; k <= steps; k++ {
+		temp := -40 + float64(k)*h
 		v := calcVaporPressure(temp)
 		n++
 		if !(v > 0) || math.IsInf(v, 0) || math.IsNaN(v) {
@@ -31,7 +36,7 @@ func TestOwvcReplay(t *testing.T) {
 			break
 		}
 		if !(v > prev) {
-			bad = fmt.Sprintf("calcVaporPressure(%.3f) = %.9f is not above calcVaporPressure(%.3f) = %.9f", temp, v, temp-0.001, prev)
+			bad = fmt.Sprintf("calcVaporPressure(%.3f) = %.9f is not above calcVaporPressure(%.3f) = %.9f", temp, v, temp-h, prev)
 			break
 		}
 		prev = v
